@@ -113,6 +113,39 @@ func (g *SpecGen) collect(t *Type) {
 	}
 }
 
+// hasMap: values of type t contain a map somewhere. Map encodings depend on Go's map iteration order, so
+// there is no reference function for them; such types are covered by the safety contracts of decoders only.
+func (g *SpecGen) hasMap(t *Type) bool { return g.hasMapSeen(t, map[string]bool{}) }
+
+func (g *SpecGen) hasMapSeen(t *Type, seen map[string]bool) bool {
+	switch t.Kind {
+	case MapK:
+		return true
+	case Arr:
+		return g.hasMapSeen(t.Elem, seen)
+	case Rec:
+		if seen[t.Name] {
+			return false
+		}
+		seen[t.Name] = true
+		r := g.s.record(t.Name)
+		if r == nil {
+			return false
+		}
+		for _, f := range r.Fields {
+			if g.hasMapSeen(f.Type, seen) {
+				return true
+			}
+		}
+		for _, b := range r.Branches {
+			if g.hasMapSeen(R(b.Name), seen) {
+				return true
+			}
+		}
+	}
+	return false
+}
+
 func (g *SpecGen) fn(kind, id string) string { return kind + "_" + g.pfx + "_" + id }
 
 // flat returns the SMT sorts of the flattened value of t.
@@ -433,9 +466,8 @@ func (g *SpecGen) emitSMT() {
 	w := &g.smt
 	for _, id := range g.order {
 		t := g.used[id]
-		if t.Kind == MapK {
-			g.errf("maps are not yet covered by the reference functions (%s)", id)
-			continue
+		if g.hasMap(t) {
+			continue // no reference function (see hasMap)
 		}
 		HP, HA := g.hp(id), g.ha(id)
 		decl, c := vars("c", g.flat(t))
@@ -653,6 +685,9 @@ func (g *SpecGen) Generate() error {
 	fmt.Fprintf(&g.ctr, "//go:build verif\n\n// Contracts derived from the schema description %s (options %s) by /verif's spec generator.\npackage %s\n\n", g.s.Name, g.o, g.s.Name)
 	for _, id := range g.order {
 		t := g.used[id]
+		if g.hasMap(t) {
+			continue
+		}
 		gt := t.GoType(g.o)
 		bundle := "H_" + g.pfx + "_" + id
 		var items []string
@@ -692,6 +727,7 @@ type walk struct {
 	frames []string // universal frame invariants for heap cells that per-iteration copies may extend
 	marks  []string // unfolding markers of enclosing loops (needed to bound partial sums)
 	ord    int
+	nn     string // "p != nil" for the message field being walked (safe mode)
 	bytes  bool // the record contains byte arrays: carry the frame of the byte heap through loops
 }
 
@@ -761,6 +797,13 @@ func (g *SpecGen) copyFrames(elem *Type) []string {
 const byteFrameInv = "forall k Loc :: allocated(k) && ref(k) != ref(buf) ==> mem(byte)[k] == old(mem(byte))[k]"
 
 func (g *SpecGen) recordContracts(r *Record) {
+	if g.hasMap(R(r.Name)) {
+		// safety contracts of the decoders only
+		g.unmarshalContract(r)
+		g.makeContracts(r)
+		g.decodeContract(r)
+		return
+	}
 	g.sizeContract(r)
 	g.marshalToContract(r)
 	g.marshalContract(r)
@@ -777,6 +820,9 @@ const allocK = 64
 
 // streamMods is what a stream decoder may modify besides its receiver.
 func (g *SpecGen) streamMods(er string, r *Record) string {
+	if g.hasMap(R(r.Name)) {
+		return fmt.Sprintf("%s.Err, %s.Reader, %s.buffer[0:8], taken(), failed(), any(io.LimitedReader.N), fresh(), tr(), hw(), alloc()", er, er, er)
+	}
 	return fmt.Sprintf("%s.Err, %s.Reader, %s.buffer[0:8], taken(), failed(), any(io.LimitedReader.N), %s, fresh(byte), fresh(iohelp.ErrorReader), fresh(io.LimitedReader), tr(), hw(), alloc()", er, er, er, g.freshFor(r))
 }
 
@@ -824,8 +870,20 @@ func (g *SpecGen) decodeContract(r *Record) {
 			g.line("  invariant loop %d: %s", k, extra)
 		}
 	}
-	var walkArr func(t *Type, v string)
-	walkArr = func(t *Type, v string) {
+	var walkArr func(t *Type, v string, depth int)
+	walkArr = func(t *Type, v string, depth int) {
+		if t.Kind == MapK {
+			// the generator names the key variable of a map loop after its nesting depth
+			k := w.ord
+			w.ord++
+			nn := ""
+			if strings.HasPrefix(v, "*") {
+				nn = strings.TrimPrefix(v, "*") + " != nil && "
+			}
+			inv(k, fmt.Sprintf("%s%s != nil", nn, v))
+			walkArr(t.Elem, fmt.Sprintf("(%s)[k%d]", v, depth), depth+1)
+			return
+		}
 		if t.Kind != Arr || (t.Elem.Kind == Prim && t.Elem.Name == "byte") {
 			return
 		}
@@ -836,19 +894,19 @@ func (g *SpecGen) decodeContract(r *Record) {
 			nn = strings.TrimPrefix(v, "*") + " != nil && "
 		}
 		inv(k, fmt.Sprintf("%sranged(%d) == %s", nn, k, v))
-		walkArr(t.Elem, fmt.Sprintf("ranged(%d)[it(%d)]", k, k))
+		walkArr(t.Elem, fmt.Sprintf("ranged(%d)[it(%d)]", k, k), depth+1)
 	}
 	switch r.Kind {
 	case Struct:
 		for _, f := range r.Fields {
-			walkArr(f.Type, g.fieldExpr(r, f))
+			walkArr(f.Type, g.fieldExpr(r, f), 1)
 		}
 	case Message:
 		k := w.ord
 		w.ord++
 		inv(k, "")
 		for _, f := range msgFields(r, false) {
-			walkArr(f.Type, "*"+g.fieldExpr(r, f))
+			walkArr(f.Type, "*"+g.fieldExpr(r, f), 1)
 		}
 	case Union:
 		k := w.ord
@@ -961,8 +1019,36 @@ func (g *SpecGen) unmarshalContract(r *Record) {
 	}
 	// no single make() requests memory out of proportion to the input still to be read
 	g.line("  assert after \"make(\": [ALLOC] lastalloc() <= %d * (len(buf) - at)", allocK)
-	g.line("  modifies *bbp, %s, tr(), hw(), alloc()", g.freshFor(r))
+	if g.hasMap(self) {
+		g.line("  modifies *bbp, fresh(), tr(), hw(), alloc()")
+	} else {
+		g.line("  modifies *bbp, %s, tr(), hw(), alloc()", g.freshFor(r))
+	}
 	w := &walk{ord: 1}
+	if g.hasMap(self) {
+		// safety only: cursor invariants for every loop, in source order
+		switch r.Kind {
+		case Struct:
+			for _, f := range r.Fields {
+				g.walkDecSafe(f.Type, g.fieldExpr(r, f), 1, false, w)
+			}
+		case Message:
+			k := w.ord
+			w.ord++
+			g.line("  invariant loop %d: 0 <= at && at <= len(buf) && len(buf) + 4 <= len(old(buf))", k)
+			for _, f := range msgFields(r, false) {
+				p := g.fieldExpr(r, f)
+				w.nn = p + " != nil"
+				g.walkDecSafe(f.Type, "*"+p, 1, true, w)
+				w.nn = ""
+			}
+		case Union:
+			k := w.ord
+			w.ord++
+			g.line("  invariant loop %d: 0 <= at && at <= len(buf) && len(buf) + 4 <= len(old(buf))", k)
+		}
+		return
+	}
 	switch r.Kind {
 	case Struct:
 		pre := "0"
@@ -1059,6 +1145,36 @@ func (g *SpecGen) walkDec(t *Type, v, pre string, bound bool, w *walk) {
 	w.marks = saved
 }
 
+// walkDecSafe emits cursor invariants (no size bookkeeping) for the loops that decode a value of type t
+// stored in v; depth is the nesting depth the generator uses to name its loop variables (k1, k2, ...).
+func (g *SpecGen) walkDecSafe(t *Type, v string, depth int, inMsg bool, w *walk) {
+	base := "0 <= at && at <= len(buf)"
+	if inMsg {
+		base += " && len(buf) + 4 <= len(old(buf))"
+	}
+	if w.nn != "" {
+		base += " && " + w.nn
+	}
+	switch t.Kind {
+	case Arr:
+		if isByteT(t.Elem) {
+			return
+		}
+		k := w.ord
+		w.ord++
+		g.line("  invariant loop %d: %s && ranged(%d) == %s", k, base, k, v)
+		if fs := g.s.FixedSize(t.Elem); fs > 0 {
+			g.line("  invariant loop %d: at + (len(ranged(%d)) - it(%d)) * %d <= len(buf)", k, k, k, fs)
+		}
+		g.walkDecSafe(t.Elem, fmt.Sprintf("ranged(%d)[it(%d)]", k, k), depth+1, inMsg, w)
+	case MapK:
+		k := w.ord
+		w.ord++
+		g.line("  invariant loop %d: %s && %s != nil", k, base, v)
+		g.walkDecSafe(t.Elem, fmt.Sprintf("(%s)[k%d]", v, depth), depth+1, inMsg, w)
+	}
+}
+
 // walkDecMsg emits the invariants of loops nested in a message's dispatch loop.
 func (g *SpecGen) walkDecMsg(t *Type, v, others string, bound bool, w *walk) {
 	if t.Kind != Arr || isByteT(t.Elem) {
@@ -1105,7 +1221,11 @@ func (g *SpecGen) makeContracts(r *Record) {
 	if g.boundOK(self, map[string]bool{}) {
 		g.line("  ensures [BOUND] result1 == nil ==> %s <= len(buf)", g.sizeX(self, "result0"))
 	}
-	g.line("  modifies %s, tr(), hw(), alloc()", g.freshFor(r))
+	if g.hasMap(self) {
+		g.line("  modifies fresh(), tr(), hw(), alloc()")
+	} else {
+		g.line("  modifies %s, tr(), hw(), alloc()", g.freshFor(r))
+	}
 }
 
 const ewT = "*iohelp.ErrorWriter"
